@@ -283,7 +283,7 @@ class Walk:
 
     def __init__(self, consts, plugs, ranged, shadow, script, ps):
         self.c, self.plugs, self.ranged, self.shadow = consts, plugs, ranged, shadow
-        self.xm = None; self.not_before = None; self.site = "top"
+        self.xm = None; self.not_before = None; self.site = "top"; self.cur_ps = ps
         self.gen = self.block(script, ps, ("top",)); self.result = None; self.need = None
         self.step(None)
 
@@ -308,7 +308,7 @@ class Walk:
 
     def demand(self, kind, st, where):
         self.site = where[-1] + ":" + st.kind
-        ev = yield (kind, st)
+        ev = yield (kind, st, self.cur_ps)
         if ev[0] != kind:
             raise Mismatch(self.clause(where, "program-order"), self.site, "the script is at `%s` (%s) but the implementation reports a %s: %r" % (st.text("").strip(), "/".join(where), ev[0], ev[1]))
         return ev
@@ -332,6 +332,7 @@ class Walk:
 
     def stmt(self, st, ps, where):
         k, c = st.kind, self.c
+        self.cur_ps = ps
         if k == "send":
             ev = yield from self.demand("send", st, where)
             if not send_matches(st.fmt, ps, ev[1]):
@@ -415,27 +416,21 @@ def monitor_case(consts, meta, ops, out):
     def feed(ev, client):
         nonlocal cur, disc
         stats["events"] += 1
-        if cur is not None and cur["walk"].need is None and ev[0] == "send" and ev[1].split() and ev[1].split()[0].strip() in by_verb:
-            cur = None                                      # previous action finished (its completion was reported), a new one starts
+        is_start = ev[0] == "send" and bool(ev[1].split()) and ev[1].split()[0] in by_verb
+        if cur is not None and is_start and (cur["walk"].need is None or (disc and ev[1] == cur["first"])):
+            if cur["walk"].need is not None: stats["restarts"] += 1       # the connection dropped: the rewound action starts over
+            cur = None
         if cur is None:
             if ev[0] != "send":
                 raise Mismatch("program-order", "action-start", "%s %r while no action is running" % (ev[0], ev[1]))
             cur = start(client, ev[1]); disc = False
         w = cur["walk"]
-        if w.not_before is not None and ev[2] < w.not_before[0]:
+        if w.not_before is not None and not disc and ev[2] < w.not_before[0]:
             raise Mismatch("delay", w.site, "delay %s started at %d was over by %d" % (w.not_before[1], w.not_before[2], ev[2]))
-        if w.need is None or w.need[0] != ev[0] or (ev[0] == "send" and not send_matches(w.need[1].fmt, None, "") and False):
-            pass
-        if disc and ev[0] == "send" and ev[1] == cur["first"] and (w.need is None or w.need[0] != "send" or not _same_send(w, ev)):
-            cur = start(client, ev[1]); disc = False; stats["restarts"] += 1; stats["actions"] -= 1
-            w = cur["walk"]
         if w.need is None:
             raise Mismatch("program-order", "after-end", "the script %s is finished but the implementation reports %s %r" % (cur["kind"], ev[0], ev[1]))
         w.not_before = None
         w.step(ev)
-
-    def _same_send(w, ev):
-        return False
 
     for op in ops:
         if op.startswith("NOW "): now = int(op.split()[1]); continue
@@ -501,6 +496,7 @@ E_OK, E_DONE = "ok\n", "done\n"
 E_PLUG = "plug ([a-z0-9]*): ([a-z]*)\n"                 # both fields may be EMPTY
 E_WORD = "([^ \n]+) ([A-Za-z0-9]+)\n"
 E_X = "x*"                                                # matches the empty string
+# NB: xregex_exec passes REG_NOTEOL, so `$` never matches in a powerman pattern: the generated patterns avoid it
 ST = pmgen.Stmt
 
 
@@ -516,10 +512,10 @@ def sem_body(rng, depth, ranged):
         elif r < 0.58:
             lit = rng.choice([None, None, None, "p1", "zz"])
             pmp = rng.choice([1, 1, 1, 3]) if lit is None and rng.random() < 0.75 else -1
-            ints = rng.choice([[("on", "^on$"), ("off", "^off$")], [("on", "o"), ("off", "off")], [("off", "^$"), ("on", "on")], [("off", "off"), ("on", "o")], []])
+            ints = rng.choice([[("on", "^on"), ("off", "^off")], [("on", "o"), ("off", "off")], [("off", "x*"), ("on", "on")], [("off", "off"), ("on", "o")], []])
             out.append(ST("setplugstate", lit=lit, pmp=0 if lit is not None else pmp, smp=rng.choice([2, 2, 2, 1, 0]), interps=ints))
         elif r < 0.66:
-            out.append(ST("setresult", pmp=1, smp=2, interps=rng.choice([[("success", "^on$")], [("success", "o")], [("success", "^$")]])))
+            out.append(ST("setresult", pmp=1, smp=2, interps=rng.choice([[("success", "^on")], [("success", "o")], [("success", "x*")]])))
         elif r < 0.74:
             out.append(ST("delay", secs=rng.choice(["0", "0.5", "1", "0.25"])))
         elif depth < 2:
@@ -585,21 +581,71 @@ def sem_reply_pool(plugs):
     return pool
 
 
-def sem_ops(rng, consts, plugs, kinds, pool, steps):
+def ideal_replies(rng, consts, plugs, kind, script, targets):
+    """what a device that follows the script would answer (used to steer the generated histories deep into the scripts)"""
+    names = [p[0] for p in plugs]
+    tplugs = [p for p in plugs if p[1] is not None and p[1] in targets]
+    if not tplugs: return []
+    ps = None if kind.endswith("_all") else tplugs if kind.endswith("_ranged") else [rng.choice(tplugs)]
+    w = Walk(consts, plugs, kind.endswith("_ranged"), {n: [consts["ST_UNKNOWN"], 0, None] for n in targets}, script, ps)
+    out, guard = [], 0
+    try:
+        while w.need is not None and guard < 120:
+            guard += 1
+            k, st, bps = w.need
+            if k == "send":
+                arg = "(null)" if not bps else bps[0][0] if len(bps) == 1 else ",".join(p[0] for p in bps)
+                w.step(("send", st.fmt.replace("%s", arg).replace("%%", "%"), 0))
+            elif k == "recv":
+                pat = st.re_src
+                if pat == E_PLUG: txt = "plug %s: %s\n" % (rng.choice(names + names + ["", "zz"]), rng.choice(["on", "off", "on", "off", "", "zap"]))
+                elif pat == E_WORD: txt = "%s %s\n" % (rng.choice(names), rng.choice(["ON", "OFF", "o"]))
+                elif pat == E_X: txt = rng.choice(["x", "xx", ""])
+                else: txt = pat
+                out.append(txt if pat != E_X else txt + rng.choice(["", "q"]))
+                w.step(("recv", txt, 0))
+            else:
+                us = int(round(float(st.secs) * 1000000)); out.append(us)
+                w.step(("delay", us, 0)); w.not_before = None
+    except Mismatch:
+        pass
+    return out
+
+
+def sem_ops(rng, consts, plugs, kinds, pool, steps, scripts=None):
     hx = lambda x: x.encode("latin-1").hex()
     nodes = [p[1] for p in plugs if p[1] is not None]
     ops = ["NOW 1000000", "PLAN 0 " + " ".join(["now"] * 12), "INIT", "PASS", "FEED 0 " + hx("ready\n"), "NOW 1100000", "PASS"]
-    enq, nargs, t = {}, 0, 1100000
-    words = [w for w in pmgen.POWER_WORDS + pmgen.QUERY_WORDS if any(k.startswith(pmgen.CLIENT_COMS[w]) for k in kinds)]
+    enq, nargs, t, plan = {}, 0, 1100000, []
+    words = [w for w in pmgen.POWER_WORDS + pmgen.QUERY_WORDS if any(k in kinds for k in (pmgen.CLIENT_COMS[w], pmgen.CLIENT_COMS[w] + "_ranged", pmgen.CLIENT_COMS[w] + "_all"))]
     for step in range(steps):
         r = rng.random()
-        if (r < 0.22 or step == 0) and words and nargs < 30:
+        if plan and r < 0.8:
+            item = plan.pop(0)
+            if isinstance(item, int):
+                t += item
+            elif item:
+                if rng.random() < 0.15 and len(item) > 1:
+                    cut = rng.randint(1, len(item) - 1); plan.insert(0, item[cut:]); item = item[:cut]
+                ops.append("FEED 0 " + hx(item))
+            t += rng.choice([0, 1000, 100000, 100000, 250000])
+            ops += ["NOW %d" % t, "PASS"]
+            continue
+        if (r < 0.22 or step == 0 or (not plan and r < 0.5)) and words and nargs < 30:
             tg = rng.sample(nodes, rng.randint(1, len(nodes)))
             if rng.random() < 0.35: tg = list(nodes)
             client = 100 + nargs
             ops.append("NEWARGS " + ",".join(hx(x) for x in tg))
-            ops.append("ENQ %d %d 1 %d %s" % (consts[pmgen.KINDS[pmgen.CLIENT_COMS[rng.choice(words)]]], client, nargs, ",".join(hx(x) for x in tg)))
+            word = rng.choice(words)
+            ops.append("ENQ %d %d 1 %d %s" % (consts[pmgen.KINDS[pmgen.CLIENT_COMS[word]]], client, nargs, ",".join(hx(x) for x in tg)))
             enq[client] = dict(targets=tg, args=nargs); nargs += 1
+            if scripts and not plan and rng.random() < 0.85:
+                base = pmgen.CLIENT_COMS[word]
+                cands = [k for k in kinds if k in (base, base + "_ranged", base + "_all")]
+                if base + "_all" in cands and len(tg) == len(nodes) and rng.random() < 0.8: cands = [base + "_all"]
+                if cands:
+                    k = rng.choice(cands)
+                    plan = ideal_replies(rng, consts, plugs, k, scripts[k], tg)
         elif r < 0.80:
             data = "".join(rng.choice(pool) for _ in range(rng.choice([1, 1, 2, 3])))
             if rng.random() < 0.2: data = data[:rng.randint(0, len(data))]
@@ -616,7 +662,7 @@ def gen_sem_case(rng, consts):
     kinds = rng.sample(SEM_KINDS, rng.randint(3, 8))
     scripts = {k: sem_script(rng, k) for k in kinds}
     cfg, asts = sem_config(scripts, plugs, timeout=rng.choice([5.0, 3.0, 8.0]))
-    ops, enq = sem_ops(rng, consts, plugs, kinds, sem_reply_pool(plugs), rng.randint(15, 60))
+    ops, enq = sem_ops(rng, consts, plugs, kinds, sem_reply_pool(plugs), rng.randint(20, 70), scripts)
     return cfg, asts, ops, dict(scripts=scripts, enq=enq, style="sem")
 
 
@@ -650,9 +696,9 @@ def directed_sem_cases(consts):
             mixed, "on", tg, [None, None, "ok\n", None] + [None, "ok\n", None] * 3 + [None] * 8 + ["done\n", None, None])
     # captures that matched the EMPTY string: an empty plug name names no plug (no fallback to the target); an empty status is recorded
     for reply in ["plug : on\n", "plug p2: \n", "plug p1: on\n", "plug zz: off\n", "plug u1: on\n"]:
-        one({"status": 'send "STATUS %s\\n"\n\t\texpect "plug ([a-z0-9]*): ([a-z]*)\\n"\n\t\tsetplugstate $1 $2 off="^$" on="on"\n\t\texpect "done\\n"'},
+        one({"status": 'send "STATUS %s\\n"\n\t\texpect "plug ([a-z0-9]*): ([a-z]*)\\n"\n\t\tsetplugstate $1 $2 off="x*" on="on"\n\t\texpect "done\\n"'},
             mixed, "status", ["n0"], [None, None, reply, None, "done\n", None, None])
-        one({"on": 'send "ON %s\\n"\n\t\texpect "plug ([a-z0-9]*): ([a-z]*)\\n"\n\t\tsetresult $1 $2 success="^$"\n\t\texpect "done\\n"'},
+        one({"on": 'send "ON %s\\n"\n\t\texpect "plug ([a-z0-9]*): ([a-z]*)\\n"\n\t\tsetresult $1 $2 success="x*"\n\t\texpect "done\\n"'},
             mixed, "on", ["n1"], [None, None, reply, None, "done\n", None, None])
     # first matching interpretation; literal / captured / implied plug
     for verdict in ["off", "o", "on", "zap"]:
@@ -660,7 +706,7 @@ def directed_sem_cases(consts):
             mixed, "status", ["n0", "n1"], [None, None, "plug p3: %s\n" % verdict, None, "done\n", None, None, "plug p3: %s\n" % verdict, None, "done\n", None])
     # ifon / ifoff with a foreach inside, state on / off / unknown
     for verdict in ["on", "off", "zap"]:
-        one({"cycle": 'send "CYCLE %s\\n"\n\t\texpect "plug ([a-z0-9]*): ([a-z]*)\\n"\n\t\tsetplugstate $1 $2 on="^on$" off="^off$"\n\t\tifon {\n\t\t\tsend "WASON %s\\n"\n\t\t\tforeachnode {\n\t\t\t\tsend "IN %s\\n"\n\t\t\t}\n\t\t}\n\t\tifoff {\n\t\t\tsend "WASOFF %s\\n"\n\t\t\tdelay 0\n\t\t}\n\t\tsend "END %s\\n"\n\t\texpect "done\\n"'},
+        one({"cycle": 'send "CYCLE %s\\n"\n\t\texpect "plug ([a-z0-9]*): ([a-z]*)\\n"\n\t\tsetplugstate $1 $2 on="^on" off="^off"\n\t\tifon {\n\t\t\tsend "WASON %s\\n"\n\t\t\tforeachnode {\n\t\t\t\tsend "IN %s\\n"\n\t\t\t}\n\t\t}\n\t\tifoff {\n\t\t\tsend "WASOFF %s\\n"\n\t\t\tdelay 0\n\t\t}\n\t\tsend "END %s\\n"\n\t\texpect "done\\n"'},
             mixed, "cycle", ["n1"], [None, None, "plug p2: %s\n" % verdict] + [None] * 14 + ["done\n", None, None])
     # delays: over exactly at, and not before, start + delay; delay 0; expect that matches the empty string
     one({"reset": 'send "RESET %s\\n"\n\t\texpect "x*"\n\t\tdelay 1\n\t\tsend "A %s\\n"\n\t\tdelay 0\n\t\tsend "B\\n"\n\t\tdelay 0.5\n\t\texpect "done\\n"'},
@@ -684,15 +730,34 @@ def run(ctx, V):
               "dev_initial_connect/dev_enqueue_actions/dev_pre_poll/poll/dev_post_poll with stub transports and through Model.DevHarness; compared after every pass: "
               "callbacks with their text, bytes written, requested time-out, every device's state, queue, exec stacks, buffers, every Arg; "
               "non-trivial = at least one completion callback or written byte")
-    cases = directed_cases(consts) + [gen_case(ctx.rng, consts, ["random", "gen", "gen2"][i % 3]) for i in range(n)]
+    nsem = 500 if ctx.tier == "quick" else 8000
+    V.rule += ("; MONITOR (sem cases): one device with hard-wired plugs (unmapped plugs anywhere, runs of adjacent ones), scripts over the whole grammar whose "
+               "first send names the script, every action verbose: the trace semantics of Spec/ScriptSem.v is walked over the implementation's send / recv / delay "
+               "telemetry (argument of %s, program order, foreach lists and order, ifon/ifoff guards, delay length against the pass clock) and the request's "
+               "argument table is compared with the semantics' at completion")
+    cases = ([c + (None,) for c in directed_cases(consts)] + directed_sem_cases(consts) + corpus_cases(consts)
+             + [gen_case(ctx.rng, consts, ["random", "gen", "gen2"][i % 3]) + (None,) for i in range(n)]
+             + [gen_sem_case(ctx.rng, consts) for i in range(nsem)])
     with ThreadPoolExecutor(16) as ex:
         outs = list(ex.map(lambda ic: (run_impl(devh, ctx.scratch, ic[0], ic[1][0], ic[1][2]), devtab_from_enq(enq, ctx.scratch, ic[0], ic[1][0])), enumerate(cases)))
         minputs = []
-        for (cfg, asts, ops), ((rc, o, e), (rc2, tab, e2)) in zip(cases, outs):
+        for (cfg, asts, ops, meta), ((rc, o, e), (rc2, tab, e2)) in zip(cases, outs):
             minputs.append("\n".join(model_input(cfg, asts, tab, ops, consts)) + "\n")
         mouts = list(ex.map(lambda s: vlib.sh(["timeout", "-s", "KILL", "60", model], shell=False, inp=s.encode(), timeout=70), minputs))
-    for (cfg, asts, ops), ((rc, o, e), (rc2, tab, e2)), (mrc, mo, me), minp in zip(cases, outs, mouts, minputs):
+    mstats = {}
+    for (cfg, asts, ops, meta), ((rc, o, e), (rc2, tab, e2)), (mrc, mo, me), minp in zip(cases, outs, mouts, minputs):
         ib, mb = split_blocks(o), split_blocks(mo)
+        if meta is not None and rc == 0:
+            # the property itself, on the implementation's behaviour
+            V.count("style:" + meta["style"])
+            try:
+                meta["plugs"] = [(bytes.fromhex(x.split(":")[0]).decode("latin-1"), None if x.split(":")[1] == "-" else bytes.fromhex(x.split(":")[1]).decode("latin-1"))
+                                 for x in tab[0].split(",")] if tab and tab[0] != "-" else []
+                st = monitor_case(consts, meta, ops, o)
+                for k_, v_ in st.items(): mstats[k_] = mstats.get(k_, 0) + v_
+            except Mismatch as mm:
+                V.violation(mm.clause, mm.site, dict(config=cfg.text(), ops=ops, enq={str(k_): v_ for k_, v_ in meta["enq"].items()},
+                                                     scripts={k_: "\n".join(x.text() for x in v_).lstrip("\t") for k_, v_ in meta["scripts"].items()}), mm.detail)
         nontriv = any(l.startswith("EV DONE") or l.startswith("WROTE") for l in o.splitlines())
         V.case((cfg.text(), tuple(ops)), nontrivial=nontriv)
         V.count("ops", len(ops)); V.count("impl_rc:%d" % rc)
@@ -729,9 +794,70 @@ def run(ctx, V):
             V.tie_broken("correspondence", "R-DEV", "first difference in output block %d\nimpl only: %s\nmodel only: %s" % (k, da, db),
                          case=dict(config=cfg.text(), ops=ops))
         V.sample(dict(config=cfg.text()[:600], ops=ops[:25], impl_first_pass=[l for l in o.splitlines() if l.startswith(("EV", "WROTE", "TMO"))][:12]), limit=2)
+    for k_, v_ in mstats.items(): V.count("monitor:" + k_, v_)
+    V.extra["monitor"] = mstats
+
+
+def corpus_cases(consts):
+    """corpus/C08/*.json: {scripts: {kind: text}, plugs: [[name, node|null]], word, targets, steps, timeout} - cases that once violated"""
+    out = []
+    cdir = os.path.join(vlib.VERIF, "corpus", "C08")
+    for fn in sorted(os.listdir(cdir)) if os.path.isdir(cdir) else []:
+        if not fn.endswith(".json"): continue
+        c = json.load(open(os.path.join(cdir, fn)))
+        scripts = {k: pmgen.parse_script_text(v) for k, v in c["scripts"].items()}
+        plugs = [(p[0], p[1]) for p in c["plugs"]]
+        cfg, asts = sem_config(scripts, plugs, timeout=c.get("timeout", 5.0))
+        hx = lambda x: x.encode("latin-1").hex()
+        ops = ["NOW 1000000", "PLAN 0 " + " ".join(["now"] * 8), "INIT", "PASS", "FEED 0 " + hx("ready\n"), "NOW 1100000", "PASS",
+               "NEWARGS " + ",".join(hx(x) for x in c["targets"]),
+               "ENQ %d 100 1 0 %s" % (consts[pmgen.KINDS[pmgen.CLIENT_COMS[c["word"]]]], ",".join(hx(x) for x in c["targets"]))]
+        t = 1200000
+        for o in c["steps"]:
+            if o is None: t += 100000; ops += ["NOW %d" % t, "PASS"]
+            elif isinstance(o, int): t += o; ops += ["NOW %d" % t, "PASS"]
+            elif o == "CLOSE": ops.append("PEERCLOSE 0")
+            else: ops.append("FEED 0 " + hx(o))
+        out.append((cfg, asts, ops, dict(scripts=scripts, enq={100: dict(targets=list(c["targets"]), args=0)}, style="corpus")))
+    return out
 
 
 def replay(ctx, V, path):
+    """re-run the recorded configuration + op sequence on the current tree: implementation output and extracted-model output side by side"""
     rep = json.load(open(path))
-    print(json.dumps(rep, indent=1)[:6000])
-    return 0
+    case = rep.get("case") or (rep.get("no_longer_checks") or [{}])[0].get("case") or {}
+    print(json.dumps({k: v for k, v in rep.items() if k != "case"}, indent=1)[:3000])
+    if not case.get("config"):
+        return 0
+    vlib.proof_gate(ctx, V, extract=["Extract/ExDevice.vo", "Extract/ExEnqueue.vo"])
+    devh = build_dev(ctx)
+    conf = os.path.join(ctx.scratch, "replay.conf"); open(conf, "w").write(case["config"])
+    rc, o, e = vlib.sh(["timeout", "-s", "KILL", "60", devh, conf], shell=False, inp=("\n".join(case["ops"]) + "\n").encode(), timeout=70, env={"ASAN_OPTIONS": "detect_leaks=0"})
+    print("--- configuration\n" + case["config"])
+    print("--- implementation (rc=%d): callbacks / bytes written / argument tables per pass" % rc)
+    for l in o.splitlines():
+        if l.startswith(("EV ", "WROTE", "ARGS", "COUNT")):
+            w = l.split()
+            if w[0] == "EV" and w[1] in ("TELE", "DONE") and w[-1] != "-":
+                try: l = " ".join(w[:-1]) + " " + repr(bytes.fromhex(w[-1]).decode("latin-1"))
+                except ValueError: pass
+            print("  " + l)
+    print("--- recorded: %s @ %s: %s" % (rep.get("clause_violated"), rep.get("site"), str(rep.get("detail", ""))[:2000]))
+    if case.get("scripts") and rc == 0:
+        # evaluate the property monitor again on the current tree
+        import C01
+        consts = pmgen.load_genconsts(ctx.coq)
+        open(os.path.join(ctx.scratch, "dev0.conf"), "w").write(case["config"])
+        rc2, tab, e2 = devtab_from_enq(C01.build_enq(ctx), ctx.scratch, 0, None)
+        meta = dict(scripts={k: pmgen.parse_script_text(v) for k, v in case["scripts"].items()},
+                    enq={int(k): v for k, v in case["enq"].items()}, style="replay")
+        meta["plugs"] = [(bytes.fromhex(x.split(":")[0]).decode("latin-1"), None if x.split(":")[1] == "-" else bytes.fromhex(x.split(":")[1]).decode("latin-1"))
+                         for x in tab[0].split(",")] if tab and tab[0] != "-" else []
+        try:
+            st = monitor_case(consts, meta, case["ops"], o)
+            print("--- now: the implementation's behaviour on this input is a trace of the script (%s)" % st)
+            return 0
+        except Mismatch as mm:
+            print("--- now: VIOLATED %s @ %s: %s" % (mm.clause, mm.site, mm.detail))
+            return 1
+    return 1 if rep.get("verdict") == "violation" and rc != 0 else 0
